@@ -159,7 +159,7 @@ pub fn generate(g: &mut G, index: u64) -> Scenario {
             ops.push(Op::Sleep(period * g.range(3, 5) + period / 2));
             ops.push(Op::Call { h: 0, id: g.id(), work: vec![] });
         }
-        let shapes: Vec<u32> = if owning { vec![0, 1, 2, 3, 4, 5, 6, 8, 9] } else if restartable { vec![0, 5, 6, 7] } else { vec![0, 5, 7] };
+        let shapes: Vec<u32> = if owning { vec![0, 1, 2, 3, 4, 5, 6, 8, 9, 10, 11] } else if restartable { vec![0, 5, 6, 7] } else { vec![0, 5, 7] };
         match g.pick(&shapes) {
             0 => {
                 ops.push(Op::Stop { h: 0 });
@@ -201,6 +201,23 @@ pub fn generate(g: &mut G, index: u64) -> Scenario {
                 ops.push(Op::Sleep(3));
                 ops.push(Op::Upgrade { h: 1, to: 2 });
                 ops.push(Op::QueryStopped { h: 1 });
+            }
+            10 => {
+                // a join future polled once and kept does not block a later join
+                ops.push(Op::JoinStart { h: 0 });
+                ops.push(Op::JoinPoll);
+                ops.push(Op::Stop { h: 0 });
+                ops.push(Op::Await { h: 0, on_clone: true });
+                ops.push(Op::Join { h: 0 });
+                ops.push(Op::JoinFinish);
+            }
+            11 => {
+                // a join future that is never polled takes nothing away
+                ops.push(Op::JoinStart { h: 0 });
+                ops.push(Op::JoinDiscard);
+                ops.push(Op::Send { h: 0, id: g.id(), work: vec![] });
+                ops.push(Op::Stop { h: 0 });
+                ops.push(Op::Join { h: 0 });
             }
             8 => {
                 // a join that is begun and abandoned is not a stop request
